@@ -9,6 +9,7 @@ from typing import Any
 from core.loader import ClassInfo, FuncInfo, ModuleInfo, own_nodes
 
 from .c02_sym import (
+    _MISSING_KEY,
     MUTATORS,
     STR_METHODS,
     ANode,
@@ -30,6 +31,7 @@ from .c02_sym import (
     InterpBase,
     Partial,
     Raised,
+    Seq,
     SuperVal,
     Sym,
     Term,
@@ -50,6 +52,8 @@ BUILTIN_FUNCS = {
     "len", "isinstance", "issubclass", "hasattr", "getattr", "setattr", "range", "enumerate", "zip", "reversed", "sorted", "any", "all", "map", "filter", "iter", "next",
     "print", "repr", "min", "max", "sum", "abs", "id", "callable", "super", "vars", "format",
 }
+PY_MUTATORS = {"append", "extend", "insert", "pop", "popleft", "appendleft", "remove", "clear", "sort", "reverse", "update", "add", "discard", "setdefault", "popitem", "difference_update", "intersection_update", "symmetric_difference_update", "__setitem__", "__delitem__", "__setattr__"}
+PURE_LIBS = ("re", "itertools", "operator", "string", "math", "posixpath", "functools", "_operator")  # stdlib calls folded on constant arguments
 LIBRARY_OBJECT_TYPES = ("networkx.DiGraph", "networkx.Graph", "networkx.MultiDiGraph", "networkx.classes.digraph.DiGraph")
 
 
@@ -231,10 +235,10 @@ class Interp(InterpBase):
             self.exec_block(fn.body, frame)
         except _Return as r:
             if gen:
-                return frame.vars["__yields__"]
+                return self.seq_value(frame.vars["__yields__"])
             return r.value
         if gen:
-            return frame.vars["__yields__"]
+            return self.seq_value(frame.vars["__yields__"])
         return None
 
     def call_closure(self, c: Closure, args: list, kwargs: dict) -> Any:
@@ -250,8 +254,8 @@ class Interp(InterpBase):
         try:
             self.exec_block(fn.body, frame)
         except _Return as r:
-            return frame.vars["__yields__"] if gen else r.value
-        return frame.vars["__yields__"] if gen else None
+            return self.seq_value(frame.vars["__yields__"]) if gen else r.value
+        return self.seq_value(frame.vars["__yields__"]) if gen else None
 
     def instantiate(self, ci: ClassInfo, args: list, kwargs: dict, node: ast.AST | None, frame: Frame | None) -> Any:
         inst = Inst(ci)
@@ -262,6 +266,9 @@ class Interp(InterpBase):
             self.call_function(init, [inst, *args], kwargs, None, node)
             return inst
         dc = [c for c in reversed(self.repo.mro(ci)) if c.is_dataclass]
+        if not dc and "NamedTuple" in {b.split(".")[-1] for b in self.repo.external_bases(ci)}:
+            dc = [c for c in reversed(self.repo.mro(ci))]
+            inst.args = ("namedtuple",)
         if dc:
             names: list[tuple[str, ast.expr | None, ClassInfo]] = []
             for c in dc:
@@ -283,6 +290,9 @@ class Interp(InterpBase):
                     raise Raised(None, "TypeError")
             if args or kwargs:
                 raise Raised(None, "TypeError")
+            if inst.args == ("namedtuple",):
+                inst.args = ("namedtuple", *[n for n, _d, _c in names])
+                return inst
             post = self.repo.lookup_method(ci, "__post_init__")
             if post is not None:
                 self.call_function(post, [inst], {})
@@ -356,6 +366,8 @@ class Interp(InterpBase):
             return BoundBuiltin(obj, name)
         if isinstance(obj, (str, list, tuple, dict, set, frozenset, int, bytes)):
             return BoundBuiltin(obj, name)
+        if type(obj).__module__ in PURE_LIBS:
+            return BoundBuiltin(obj, name)  # e.g. a compiled regular expression / match object obtained by constant folding
         if isinstance(obj, (FuncVal, Closure)) and name == "__name__":
             return obj.fi.name if isinstance(obj, FuncVal) else getattr(obj.node, "name", "<lambda>")
         if isinstance(obj, Partial):
@@ -414,13 +426,13 @@ class Interp(InterpBase):
             if isinstance(s.value, ast.Constant):
                 return
             if isinstance(s.value, ast.Yield):
-                frame.vars["__yields__"].append(self.eval(s.value.value, frame) if s.value.value is not None else None)
+                self.yields_of(frame, s).append(("item", self.eval(s.value.value, frame) if s.value.value is not None else None))
                 return
             if isinstance(s.value, ast.YieldFrom):
-                kind, items = self.iterate(self.eval(s.value.value, frame), s, frame)
-                if kind != "concrete":
-                    raise Unsupported("yield from an iterable of unknown length", s, fi)
-                frame.vars["__yields__"].extend(items)
+                self.yields_of(frame, s).extend(self.parts_of(self.eval(s.value.value, frame), s, frame))
+                return
+            if self.ex.split_calls and isinstance(s.value, ast.Call):
+                self.eval_call(s.value, frame, statement=True)
                 return
             self.eval(s.value, frame)
         elif isinstance(s, ast.Assign):
@@ -518,6 +530,27 @@ class Interp(InterpBase):
         else:
             raise Unsupported(f"statement {type(s).__name__}", s, fi)
 
+    def yields_of(self, frame: Frame, node: ast.AST) -> list:
+        f: Frame | None = frame
+        while f is not None:
+            if "__yields__" in f.vars:
+                return f.vars["__yields__"]
+            f = f.parent if f.fi is frame.fi else None
+        raise Unsupported("yield outside a generator function", node, frame.fi)
+
+    def parts_of(self, v: Any, node: ast.AST, frame: Frame | None) -> list:
+        """Parts of a partially known sequence for any iterable value."""
+        kind, items = self.iterate3(v, node, frame)
+        if kind == "concrete":
+            return [("item", x) for x in items]
+        if kind == "seq":
+            return list(items.parts)
+        return [("rep", [self.element_of(items)], items, show(items))]
+
+    @staticmethod
+    def seq_value(parts: list) -> Any:
+        return [p[1] for p in parts] if all(p[0] == "item" for p in parts) else Seq(list(parts))
+
     def _unsupported(self, msg: str, node: ast.AST, fi: FuncInfo | None):
         raise Unsupported(msg, node, fi)
 
@@ -602,6 +635,17 @@ class Interp(InterpBase):
 
     # ------------------------------------------------------------------ loops
     def iterate(self, v: Any, node: ast.AST, frame: Frame | None) -> tuple[str, Any]:
+        """("concrete", items) or ("havoc", term); partially known sequences are collapsed to a term."""
+        kind, items = self.iterate3(v, node, frame)
+        if kind == "seq":
+            if items.concrete:
+                return "concrete", items.items()
+            return "havoc", App("seq", (_h(items),))
+        return kind, items
+
+    def iterate3(self, v: Any, node: ast.AST, frame: Frame | None) -> tuple[str, Any]:
+        if isinstance(v, Seq):
+            return "seq", v
         if isinstance(v, (list, tuple)):
             return "concrete", list(v)
         if isinstance(v, dict):
@@ -621,9 +665,16 @@ class Interp(InterpBase):
         if isinstance(v, ExtView):
             return "havoc", App(f"extiter@{v.obj.version}", (v.obj.name, v.kind, _h(v.key)))
         if isinstance(v, Inst):
+            if v.args[:1] == ("namedtuple",):
+                return "concrete", [v.fields[n] for n in v.args[1:]]
             m = self.repo.lookup_method(v.ci, "__iter__")
             if m is not None:
-                return self.iterate(self.call_function(m, [v], {}), node, frame)
+                return self.iterate3(self.call_function(m, [v], {}), node, frame)
+        if type(v).__module__ in PURE_LIBS or type(v).__name__ in ("callable_iterator", "map", "filter", "zip", "accumulate", "chain", "islice", "generator"):
+            try:
+                return "concrete", list(v)
+            except Exception as ex:  # noqa: BLE001
+                raise Raised(None, type(ex).__name__)
         raise Unsupported(f"iteration over a {type(v).__name__} value", node, frame.fi if frame else None)
 
     @staticmethod
@@ -639,7 +690,7 @@ class Interp(InterpBase):
     def havoc_site(self, node: ast.AST, frame: Frame) -> str:
         return f"{frame.fi.fq if frame.fi else frame.module.name}:{getattr(node, 'lineno', 0)}:{getattr(node, 'col_offset', 0)}"
 
-    def havoc_after(self, body: list[ast.AST], targets: list[ast.expr], frame: Frame) -> None:
+    def havoc_after(self, body: list[ast.AST], targets: list[ast.expr], frame: Frame, keep_yields: bool = False) -> None:
         names: set[str] = set()
         for b in [*body, *targets]:
             for n in ast.walk(b):
@@ -653,82 +704,116 @@ class Interp(InterpBase):
             o.version += 1
 
     def exec_for(self, s: ast.For, frame: Frame) -> None:
-        kind, items = self.iterate(self.eval(s.iter, frame), s, frame)
-        if kind == "concrete":
-            for item in items:
-                self.assign(s.target, item, frame)
+        parts = self.parts_of(self.eval(s.iter, frame), s, frame)
+        yields_inside = any(isinstance(n, (ast.Yield, ast.YieldFrom)) for b in s.body for n in ast.walk(b))
+        broke = False
+        for part in parts:
+            if part[0] == "item":
+                self.assign(s.target, part[1], frame)
                 try:
                     self.exec_block(s.body, frame)
                 except _Break:
+                    broke = True
                     break
                 except _Continue:
                     continue
-            else:
-                self.exec_block(s.orelse, frame)
-            return
-        if self._next_decision():
-            self.body_sites.append(self.havoc_site(s, frame))
-            self.in_loop += 1
-            for o in self.ext_objs:
-                o.version += 1  # earlier iterations may have changed the abstract objects
-            self.assign(s.target, self.element_of(items), frame)
-            try:
-                self.exec_block(s.body, frame)
-            except (_Break, _Continue):
-                pass
-            raise EndRun()
-        self.havoc_after(s.body, [s.target], frame)
-        self.exec_block(s.orelse, frame)
+                continue
+            _tag, template, source, _site = part
+            if yields_inside:
+                # generator body over a segment of unknown length: one representative repetition becomes a repeated segment of the result
+                ys = self.yields_of(frame, s)
+                start = len(ys)
+                self.in_loop += 1
+                for o in self.ext_objs:
+                    o.version += 1
+                try:
+                    for tv in template:
+                        self.assign(s.target, tv, frame)
+                        try:
+                            self.exec_block(s.body, frame)
+                        except _Continue:
+                            continue
+                        except _Break:
+                            break
+                finally:
+                    self.in_loop -= 1
+                added = ys[start:]
+                del ys[start:]
+                if any(p[0] != "item" for p in added):
+                    raise Unsupported("nested segments of unknown length in a generator", s, frame.fi)
+                ys.append(("rep", [p[1] for p in added], source, self.havoc_site(s, frame)))
+                self.havoc_after(s.body, [s.target], frame, keep_yields=True)
+                continue
+            if self.structural_decision("loop", self.havoc_site(s, frame)):
+                self.body_sites.append(self.havoc_site(s, frame))
+                self.in_loop += 1
+                for o in self.ext_objs:
+                    o.version += 1  # earlier iterations may have changed the abstract objects
+                for tv in template:
+                    self.assign(s.target, tv, frame)
+                    try:
+                        self.exec_block(s.body, frame)
+                    except _Continue:
+                        continue
+                    except _Break:
+                        break
+                raise EndRun()
+            self.havoc_after(s.body, [s.target], frame)
+        if not broke:
+            self.exec_block(s.orelse, frame)
 
     def comprehension(self, e: ast.AST, frame: Frame) -> Any:
         gens = e.generators
         inner = Frame(frame.fi, frame.module, frame, frame.cls_ctx)
         inner.self_name = None
-        out: list = []
 
-        def emit() -> None:
+        def emit() -> list:
             if isinstance(e, ast.DictComp):
-                out.append((self.eval(e.key, inner), self.eval(e.value, inner)))
-            else:
-                out.append(self.eval(e.elt, inner))
+                return [("item", (self.eval(e.key, inner), self.eval(e.value, inner)))]
+            return [("item", self.eval(e.elt, inner))]
 
-        def rec(i: int) -> None:
+        def rec(i: int) -> list:
             if i == len(gens):
-                emit()
-                return
+                return emit()
             g = gens[i]
-            kind, items = self.iterate(self.eval(g.iter, inner if i else frame), e, frame)
-            if kind == "concrete":
-                for item in items:
-                    self.assign(g.target, item, inner)
+            out: list = []
+            for part in self.parts_of(self.eval(g.iter, inner if i else frame), e, frame):
+                if part[0] == "item":
+                    self.assign(g.target, part[1], inner)
                     if all(self.truth(self.eval(c, inner)) for c in g.ifs):
-                        rec(i + 1)
-                return
-            if self._next_decision():
-                self.body_sites.append(self.havoc_site(e, frame))
+                        out += rec(i + 1)
+                    continue
+                _tag, template, source, _site = part
                 self.in_loop += 1
                 for o in self.ext_objs:
                     o.version += 1
-                self.assign(g.target, self.element_of(items), inner)
-                if all(self.truth(self.eval(c, inner)) for c in g.ifs):
-                    rec(i + 1)
-                raise EndRun()
-            for o in self.ext_objs:
-                o.version += 1
-            raise _Opaque(App("comprehension", (self.havoc_site(e, frame), items)))
-
-        try:
-            rec(0)
-        except _Opaque as o:
-            return o.term
-        if isinstance(e, ast.ListComp) or isinstance(e, ast.GeneratorExp):
+                try:
+                    rep: list = []
+                    for tv in template:
+                        self.assign(g.target, tv, inner)
+                        if all(self.truth(self.eval(c, inner)) for c in g.ifs):
+                            sub = rec(i + 1)
+                            if any(p[0] != "item" for p in sub):
+                                raise Unsupported("nested iteration over two iterables of unknown length in a comprehension", e, frame.fi)
+                            rep += [p[1] for p in sub]
+                finally:
+                    self.in_loop -= 1
+                out.append(("rep", rep, source, self.havoc_site(e, frame)))
             return out
+
+        parts = rec(0)
+        concrete = all(p[0] == "item" for p in parts)
+        if isinstance(e, (ast.ListComp, ast.GeneratorExp)):
+            return self.seq_value(parts)
+        if not concrete:
+            return App("comprehension", (self.havoc_site(e, frame), _h(Seq(parts))))
         if isinstance(e, ast.SetComp):
-            s = set()
-            for x in out:
-                s.add(_hashable(x))
-            return s
-        return {_hashable(k): v for k, v in out}
+            s_: set = set()
+            for p in parts:
+                if not self.contains(s_, p[1]):
+                    s_.add(_hashable(p[1]))
+            return s_
+        return {_hashable(p[1][0]): p[1][1] for p in parts}
 
     # ------------------------------------------------------------------ assignment
     def assign(self, t: ast.expr, v: Any, frame: Frame) -> None:
@@ -843,15 +928,17 @@ class Interp(InterpBase):
                     parts.append(self.to_str(v, p, frame))
             return cat(*parts)
         if isinstance(e, (ast.List, ast.Tuple, ast.Set)):
-            items: list = []
+            dparts: list = []
             for x in e.elts:
                 if isinstance(x, ast.Starred):
-                    kind, its = self.iterate(self.eval(x.value, frame), e, frame)
-                    if kind != "concrete":
-                        raise Unsupported("star-unpacking of an unknown iterable into a display", e, fi)
-                    items.extend(its)
+                    dparts += self.parts_of(self.eval(x.value, frame), e, frame)
                 else:
-                    items.append(self.eval(x, frame))
+                    dparts.append(("item", self.eval(x, frame)))
+            if any(p[0] != "item" for p in dparts):
+                if isinstance(e, ast.Set):
+                    raise Unsupported("star-unpacking of an unknown iterable into a set display", e, fi)
+                return Seq(dparts)
+            items = [p[1] for p in dparts]
             if isinstance(e, ast.List):
                 return items
             if isinstance(e, ast.Tuple):
@@ -920,6 +1007,8 @@ class Interp(InterpBase):
                 raise Raised(None, "TypeError")
             if isinstance(a, (int, float)) and isinstance(b, (int, float)):
                 return a + b
+            if (isinstance(a, (list, tuple, Seq)) and isinstance(b, (Term, Seq, list, tuple))) or (isinstance(b, (list, tuple, Seq)) and isinstance(a, (Term, Seq))):
+                return Seq(self.parts_of(a, node, frame) + self.parts_of(b, node, frame))
             if isinstance(a, Term) or isinstance(b, Term):
                 if isinstance(a, (int, float)) and not isinstance(b, (int, float)):
                     a, b = b, a  # commutative for numbers: canonical order term first
@@ -986,6 +1075,27 @@ class Interp(InterpBase):
             if key is not _MISSING:
                 return c[key]
             raise Raised(None, "KeyError")
+        if isinstance(c, Seq):
+            if c.concrete:
+                return self.subscript(c.items(), k, node, frame)
+            if isinstance(k, int) and not isinstance(k, bool):
+                lead = []
+                for p in c.parts:
+                    if p[0] != "item":
+                        break
+                    lead.append(p[1])
+                trail = []
+                for p in reversed(c.parts):
+                    if p[0] != "item":
+                        break
+                    trail.insert(0, p[1])
+                if 0 <= k < len(lead):
+                    return lead[k]
+                if k < 0 and -k <= len(trail):
+                    return trail[k]
+            if isinstance(k, slice):
+                k = App("slice", (k.start, k.stop, k.step))
+            return App("index", (_h(c), _h(k)))
         if isinstance(c, Term):
             if isinstance(k, slice):
                 k = App("slice", (k.start, k.stop, k.step))
@@ -1009,6 +1119,11 @@ class Interp(InterpBase):
             if not self.decide(App(f"hasedge@{v}", (o.name, _h(a), _h(b)))):
                 raise Raised(None, "KeyError")
             return App(f"edgedata@{v}", (o.name, _h(a), _h(b)))
+        if isinstance(c, Inst) and c.args[:1] == ("namedtuple",) and isinstance(k, (int, slice)):
+            try:
+                return tuple(c.fields[n] for n in c.args[1:])[k]
+            except IndexError:
+                raise Raised(None, "IndexError")
         if isinstance(c, Inst):
             m = self.repo.lookup_method(c.ci, "__getitem__")
             if m is not None:
@@ -1032,7 +1147,61 @@ class Interp(InterpBase):
         return _MISSING
 
     # ------------------------------------------------------------------ calls (expression level)
-    def eval_call(self, e: ast.Call, frame: Frame) -> Any:
+    def effect_only(self, fi: FuncInfo) -> bool:
+        """True if (by a conservative syntactic scan of the function and everything it may call, resolved by name) the function writes to
+        nothing but its own locals and abstract library objects: skipping such a call only loses knowledge about those objects."""
+        memo = self.ex.effect_only
+        if fi.fq in memo:
+            return memo[fi.fq]
+        memo[fi.fq] = False  # recursion: conservative
+        seen: set[str] = set()
+        todo = [fi]
+        ok = True
+        by_name: dict[str, list[FuncInfo]] = {}
+        for f in self.repo.funcs.values():
+            by_name.setdefault(f.name, []).append(f)
+        while todo and ok:
+            f = todo.pop()
+            if f.fq in seen:
+                continue
+            seen.add(f.fq)
+            if isinstance(f.node, ast.Lambda):
+                continue
+            for n in ast.walk(f.node):
+                if isinstance(n, (ast.Attribute, ast.Subscript)) and isinstance(n.ctx, (ast.Store, ast.Del)):
+                    ok = False
+                elif isinstance(n, (ast.Global, ast.Nonlocal, ast.Yield, ast.YieldFrom, ast.Await)):
+                    ok = False
+                elif isinstance(n, ast.Call):
+                    if isinstance(n.func, ast.Attribute):
+                        if n.func.attr in PY_MUTATORS:
+                            ok = False
+                        todo += [g for g in by_name.get(n.func.attr, []) if g.cls is not None]
+                    elif isinstance(n.func, ast.Name):
+                        nm = n.func.id
+                        if nm in ("setattr", "delattr", "exec", "eval"):
+                            ok = False
+                        elif nm in f.module.functions:
+                            todo.append(f.module.functions[nm])
+                        elif nm in f.module.classes or (nm in f.module.imports and self.repo._canonical(f.module.imports[nm]).rpartition(".")[0] in self.repo.modules and self.repo._canonical(f.module.imports[nm]).rpartition(".")[2][:1].isupper()):
+                            ok = False  # constructing repo objects runs __init__ bodies: not worth modelling here
+                        elif nm in f.module.imports:
+                            d = self.repo._canonical(f.module.imports[nm])
+                            m = self.repo.modules.get(d.rpartition(".")[0])
+                            if m is not None and d.rpartition(".")[2] in m.functions:
+                                todo.append(m.functions[d.rpartition(".")[2]])
+                        elif nm not in BUILTIN_FUNCS and nm not in PY_TYPES and nm not in PY_EXC:
+                            # a local / parameter holding a callable: unknown target
+                            if nm != "super":
+                                ok = False
+                    else:
+                        ok = False
+                if not ok:
+                    break
+        memo[fi.fq] = ok
+        return ok
+
+    def eval_call(self, e: ast.Call, frame: Frame, statement: bool = False) -> Any:
         fi = frame.fi
         # super()
         if isinstance(e.func, ast.Name) and e.func.id == "super" and not frame.lookup("super")[0]:
@@ -1063,6 +1232,15 @@ class Interp(InterpBase):
                 kwargs.update(m)
             else:
                 kwargs[k.arg] = self.eval(k.value, frame)
+        if statement and isinstance(func, FuncVal) and func.fi.fq not in self.ex.stop and self.effect_only(func.fi):
+            site = self.havoc_site(e, frame)
+            if self.structural_decision("call", site):
+                self.body_sites.append(site)
+                self.call(func, args, kwargs, e, frame)
+                raise EndRun()
+            for o in self.ext_objs:
+                o.version += 1
+            return None
         return self.call(func, args, kwargs, e, frame)
 
     # ------------------------------------------------------------------ isinstance
@@ -1124,7 +1302,7 @@ class Interp(InterpBase):
         return None
 
 
-_MISSING = object()
+_MISSING = _MISSING_KEY
 
 
 class _Opaque(Exception):
